@@ -90,6 +90,7 @@ func (c18) Run(c core.Case, w *core.Worker) core.Result {
 	defer io.Install()()
 	r := core.NewRng(c.Seed)
 	s := core.NewSession(dir, sc.Cfg, &res)
+	s.Spell = c.Index%2 == 1 // every Open spells DirPath differently
 	s.IO = io
 	keys := c18Keys(r, sc.NKeys)
 	hb := 0
